@@ -583,7 +583,7 @@ pub fn run(ctx: &Ctx) {
         case.hash = Some(k);
         Outcome::Held
     });
-    ctx.run_sub("nat-random", Plan::sample(t.pick(2_000, 100_000), 0.1), |rng, case| {
+    ctx.run_sub("nat-random", Plan::sample(t.pick(20_000, 100_000), 0.1), |rng, case| {
         for _ in 0..256 {
             let bitsz = rng.range(1, 31);
             let n = rng.range(1, (1u64 << bitsz) - 1 + u64::from(bitsz == 1));
@@ -624,7 +624,7 @@ pub fn run(ctx: &Ctx) {
             Outcome::Held
         });
     }
-    ctx.run_sub("nat-decode-random", Plan::sample(t.pick(4_000, 400_000), 0.1), |rng, case| {
+    ctx.run_sub("nat-decode-random", Plan::sample(t.pick(40_000, 400_000), 0.1), |rng, case| {
         for _ in 0..256 {
             let len = rng.urange(3, 9);
             let mut s = rng.bytes(len);
@@ -650,7 +650,7 @@ pub fn run(ctx: &Ctx) {
     });
 
     // (c) writer/reader interleavings
-    ctx.run_sub("rw-interleavings", Plan::sample(t.pick(150_000, 10_000_000), 0.25), |rng, case| check_rw(rng, case));
+    ctx.run_sub("rw-interleavings", Plan::sample(t.pick(1_500_000, 10_000_000), 0.25), |rng, case| check_rw(rng, case));
 
     // (d) windows: every (len, start, end) with len <= 5 (9 thorough), fresh random data per case
     let maxlen: u64 = t.pick(5, 9);
@@ -682,7 +682,7 @@ pub fn run(ctx: &Ctx) {
     });
 
     // (e) collectors
-    ctx.run_sub("collect-bits", Plan::sample(t.pick(20_000, 1_000_000), 0.05), |rng, case| {
+    ctx.run_sub("collect-bits", Plan::sample(t.pick(200_000, 1_000_000), 0.05), |rng, case| {
         let n = rng.urange(0, 70);
         let v: bits::Bits = (0..n).map(|_| rng.bool()).collect();
         let (bytes, len) = v.iter().copied().collect_bits();
